@@ -158,7 +158,10 @@ func (c *MemoryCache[MetadataT]) Get(key CacheKey) (*Entry[MetadataT], error) {
 
 func (c *MemoryCache[MetadataT]) cacheInternal(key CacheKey, data io.Reader, expires time.Time, metadata MetadataT, evictIfFull bool) (*Entry[MetadataT], error) {
 	maxCacheSize := c.maxCacheSize.Get()
-	limit := min(maxCacheSize, c.memoryCap)
+	c.mu.RLock() // memoryCap is updated under mu by the memory budget listener
+	memoryCap := c.memoryCap
+	c.mu.RUnlock()
+	limit := min(maxCacheSize, memoryCap)
 
 	if c.byteSize.Get() >= limit {
 		if evictIfFull {
